@@ -135,6 +135,192 @@ def gen_case(rng):
     return text, opts, feats
 
 
+# ------------------------------------------------------------------ bridged pair(s) + free cysteine(s) in ONE structure
+# The statement's two halves ("both partners lose the thiol hydrogen ... while residues named CYS with no sulfur within
+# the limit keep a thiol hydrogen") quantify over the same structure: this stream builds structures that contain both.
+
+
+def fragment_at(rng, pos):
+    """a fragment whose cysteine is first ("N"), last ("C") or inside ("mid") the fragment"""
+    sites = cys_sites()
+    for _ in range(500):
+        si, ri = rng.choice(sites)
+        _f, run = G.segments()[si]
+        if pos == "mid":
+            n = rng.choice([3, 4, 5])
+            idx = rng.randint(1, n - 2)
+        elif pos == "N":
+            n = rng.choice([1, 2, 3])
+            idx = 0
+        else:
+            n = rng.choice([2, 3])
+            idx = n - 1
+        start = ri - idx
+        if start < 0 or start + n > len(run):
+            continue
+        res = [[a.copy() for a in r if not (a.elem == "H" or a.name[0] == "H")] for r in run[start : start + n]]
+        return res, idx
+    raise RuntimeError("no fragment")
+
+
+def gen_mixed(rng):
+    """1-2 bridged pairs and 1-3 free cysteines in one structure; every file order of the fragments, every grouping of
+    consecutive fragments into chains; cysteines first / inside / last in their fragment"""
+    feats = {"bridged+free"}
+    pick_pos = lambda: rng.choice(["mid", "mid", "mid", "N", "C"])  # noqa: E731
+    groups = []  # [(kind, [(fragment, cys index, position)])]
+    for _ in range(rng.choice([1, 1, 2])):
+        p1, p2 = pick_pos(), pick_pos()
+        f1, i1 = fragment_at(rng, p1)
+        f2, i2 = fragment_at(rng, p2)
+        dcls = rng.choice(["bonded", "bonded", "edge-in"])
+        d = rng.uniform(1.9, 2.2) if dcls == "bonded" else 2.5 - rng.choice([1e-3, 2e-3, 0.05])
+        place(rng, f1, i1, f2, i2, d)
+        feats.add("pair-" + dcls)
+        groups.append(("pair", [(f1, i1, p1), (f2, i2, p2)]))
+    for _ in range(rng.choice([1, 1, 2, 3])):
+        p = pick_pos()
+        f, i = fragment_at(rng, p)
+        G.rigid(f, G.rotation(rng), (0, 0, 0))
+        groups.append(("free", [(f, i, p)]))
+    # the groups sit on distinct points of a coarse lattice (60 A), so sulfurs of different groups are far apart
+    cells = rng.sample([(x, y, z) for x in (-1, 0, 1) for y in (-1, 0, 1) for z in (-1, 0, 1)], len(groups))
+    for (kind, members), cell in zip(groups, cells):
+        c = G.centroid([r for f, _i, _p in members for r in f])
+        t = tuple(60.0 * cell[k] + rng.uniform(-5, 5) - c[k] for k in range(3))
+        for f, _i, _p in members:
+            G.rigid(f, [[1, 0, 0], [0, 1, 0], [0, 0, 1]], t)
+    # a free cysteine may instead sit just outside the limit of a bridged sulfur
+    pairs = [m for k, m in groups if k == "pair"]
+    for kind, members in groups:
+        if kind == "free" and rng.random() < 0.2:
+            f, i, _p = members[0]
+            keep = [[(a.x, a.y, a.z) for a in r] for r in f]
+            bf, bi, _bp = rng.choice(rng.choice(pairs))
+            place(rng, bf, bi, f, i, rng.uniform(3.0, 6.0))
+            others = [sg(g[j]) for _k, m in groups for g, j, _q in m if g is not f]
+            if min(dist(sg(f[i]), o) for o in others) > 2.7:
+                feats.add("free-just-outside-the-limit-of-a-bridged-sulfur")
+            else:
+                for r, ks in zip(f, keep):
+                    for a, xyz in zip(r, ks):
+                        a.x, a.y, a.z = xyz
+    units = [(kind, gi, f, i, p) for gi, (kind, members) in enumerate(groups) for f, i, p in members]
+    round3([u[2] for u in units])
+    rng.shuffle(units)
+    # chains: consecutive fragments of the file, grouped
+    mode = rng.choice(["own-chains", "one-chain", "grouped-chains"])
+    feats.add(mode)
+    newp = {"own-chains": 1.0, "one-chain": 0.0, "grouped-chains": 0.5}[mode]
+    letters = iter("ABCDEFGHIJ")
+    chain_of = []
+    cur = None
+    start = 1
+    for k, (kind, gi, f, i, p) in enumerate(units):
+        if cur is None or rng.random() < newp:
+            cur = next(letters)
+            start = rng.choice([1, 10, 200])
+        G.set_chain(f, cur, start)
+        start += len(f) + rng.choice([0, 3, 50])
+        chain_of.append(cur)
+    bridged_at = [k for k, u in enumerate(units) if u[0] == "pair"]
+    bridged_chains = {chain_of[k] for k in bridged_at}
+    for k, (kind, gi, f, i, p) in enumerate(units):
+        feats.add(("free-" if kind == "free" else "bridged-") + {"mid": "inside-its-fragment", "N": "first-in-its-fragment", "C": "last-in-its-fragment"}[p])
+        if kind == "free":
+            feats.add("free-before-the-bridge" if k < min(bridged_at) else "free-after-the-bridge" if k > max(bridged_at) else "free-between-bridged-cysteines")
+            feats.add("free-in-a-bridged-cysteine's-chain" if chain_of[k] in bridged_chains else "free-in-its-own-chain")
+    for kind, members in groups:
+        if kind == "pair":
+            ka, kb = (k for k, u in enumerate(units) if any(u[2] is f for f, _i, _p in members))
+            feats.add("partners-in-one-chain" if chain_of[ka] == chain_of[kb] else "partners-in-two-chains")
+    text = G.to_pdb([u[2] for u in units], ter=True)
+    posn = input_positions(text)
+    for kind, gi, f, i, p in units:
+        a = f[i][0]
+        feats.add(("free-" if kind == "free" else "bridged-") + {"": "inside-its-chain", "N": "first-in-its-chain", "C": "last-in-its-chain"}[posn[(a.chain, a.resseq)]])
+    opts = ["--ff=" + rng.choice(["AMBER", "AMBER", "CHARMM", "PARSE", "SWANSON", "TYL06"]), "--whitespace", "--keep-chain"]
+    if rng.random() < 0.5:
+        opts.append("--nodebump")
+    if rng.random() < 0.5:
+        opts.append("--noopt")
+    return text, opts, feats
+
+
+_dat = {}
+charge_stats = {}  # (state row | reason skipped) -> number of SG charges compared / skipped
+
+
+def ff_rows(ff):
+    """{(residue, atom): charge} of the force field's DATA file (exact decimals)"""
+    if ff not in _dat:
+        from core import REPO
+
+        rows = {}
+        for l in (REPO / "pdb2pqr" / "dat" / f"{ff}.DAT").read_text(encoding="utf-8").splitlines():
+            f = l.split()
+            if len(f) >= 4 and not l.startswith("#"):
+                rows.setdefault((f[0], f[1]), Decimal(f[2]))
+        _dat[ff] = rows
+    return _dat[ff]
+
+
+def input_positions(text):
+    """{(chain, number): "N" | "C" | ""} - first / last / inside its chain, from the input. A chain is the residues
+    that carry one chain identifier (TER records do not end it); first wins for a one-residue chain."""
+    chains = {}
+    for l in text.splitlines():
+        if l.startswith("ATOM"):
+            k = (l[21], int(l[22:26]))
+            c = chains.setdefault(l[21], [])
+            if not c or c[-1] != k:
+                c.append(k)
+    out = {}
+    for p in chains.values():
+        for j, k in enumerate(p):
+            out[k] = "N" if j == 0 else "C" if j == len(p) - 1 else ""
+    return out
+
+
+def check_charges(obs, text, opts, pqr, lim2=2500 * 2500):
+    """SG charge written to the PQR file against the force field's DATA: the free state (CYS / NCYS / CCYS row) for a
+    cysteine with no sulfur within the limit, the bridged state (CYX / NCYX / CCYX row, where the file has one) for
+    mutually exclusive partners. Expected state, chain position and row all come from the input and the DATA file."""
+    ff = next(o[5:] for o in opts if o.startswith("--ff="))
+    rows = ff_rows(ff)
+    got = {}
+    for t in G.pqr_atoms(pqr or ""):
+        if len(t) == 11 and t[2] == "SG":
+            got[(t[4], int(t[5]))] = Decimal(t[9])
+    posn = input_positions(text)
+    keys = []
+    for l in text.splitlines():
+        if l.startswith("ATOM") and l[12:16].strip() == "SG" and l[17:20] == "CYS":
+            keys.append(((l[21], int(l[22:26])), tuple(int(Decimal(l[a:b].strip()) * 1000) for a, b in ((30, 38), (38, 46), (46, 54)))))
+    pr = []
+    n = len(keys)
+    close = [[i != j and sum((keys[i][1][k] - keys[j][1][k]) ** 2 for k in range(3)) < lim2 for j in range(n)] for i in range(n)]
+    for i, (key, _xyz) in enumerate(keys):
+        nb = [j for j in range(n) if close[i][j]]
+        if len(nb) == 0:
+            state = "CYS"
+        elif len(nb) == 1 and [k for k in range(n) if close[nb[0]][k]] == [i]:
+            state = "CYX"
+        else:
+            continue
+        pos = posn.get(key, "")
+        want = rows.get((pos + state, "SG"))
+        if want is None and state == "CYS":
+            want = rows.get(("CYS", "SG"))  # force fields whose termini are separate groups (CHARMM, PARSE)
+        if want is None or key not in got:
+            charge_stats[f"skipped: no {pos + state} SG row in the DATA file" if want is None else "skipped: SG not in the PQR file"] = charge_stats.get(f"skipped: no {pos + state} SG row in the DATA file" if want is None else "skipped: SG not in the PQR file", 0) + 1
+            continue
+        charge_stats["compared: " + pos + state] = charge_stats.get("compared: " + pos + state, 0) + 1
+        if abs(got[key] - want) > Decimal("0.00006"):
+            pr.append(({"kind": "free-cys-SG-charge" if state == "CYS" else "bridged-cys-SG-charge", "distance": "-", "forcefield": ff, "position": pos or "inside"}, f"CYS {key[0]} {key[1]}: SG charge {got[key]} in the PQR file, {ff}.DAT gives {want} for {pos + state}"))
+    return pr
+
+
 def observe(bio, text):
     """CYS-class residues with SG in residue order: list of dicts; coordinates are the INPUT ones
     (debumping may rotate SG afterwards; bridges are detected before)"""
@@ -200,25 +386,30 @@ def check(obs, lim2=2500 * 2500):
 def run(ctx: Ctx):
     rng = ctx.rng
     n = ctx.scale(70, 2500)
+    n_mixed = ctx.scale(40, 800)
     have_model = ctx.driver.available()
     ctx.extra["rule"] = (
         "two or three peptide fragments (1-4 residues, each with a cysteine from the offline structures) placed rigidly so that SG-SG is typical / just inside / just outside / far from the 2.5 A limit, "
-        "a third sulfur, either file order, same or different chains; a case is (distance class, order, chain relation, options); distinct = distinct tuples; single free cysteines count as trivial"
+        "a third sulfur, either file order, same or different chains; a case is (distance class, order, chain relation, options); distinct = distinct tuples; single free cysteines count as trivial. "
+        "Second stream (bridged+free): one or two bridged pairs AND one to three free cysteines in ONE structure, fragments in every file order, consecutive fragments grouped into chains at random "
+        "(every fragment its own chain / one chain / groups), cysteines first, inside or last in their fragment and in their chain, a free cysteine far away or just outside the limit of a bridged sulfur; "
+        "both streams: SG charge of the PQR file against the force field's DATA rows of the expected state"
     )
     seen = set()
-    for ci in range(n):
-        text, opts, feats = gen_case(rng)
+    for ci in range(n + n_mixed):
+        mixed = ci >= n
+        text, opts, feats = gen_mixed(rng) if mixed else gen_case(rng)
         r = G.run_pipeline(text, opts)
         ctx.evaluations += 1
         ctx.count("pipeline-outcome", r.status)
         for f in feats:
-            ctx.count("features", f)
+            ctx.count("features-bridged+free" if mixed else "features", f)
         if r.status != "ok":
             continue
         obs = observe(r.biomolecule, text)
         if "free" not in feats:
             ctx.distinct.add(tuple(sorted(feats)) + tuple(o for o in opts if o.startswith("--no")))
-        if ci < 2:
+        if ci < 2 or ci == n:
             ctx.sample({"pdb_SG_lines": [l for l in text.splitlines() if " SG " in l], "options": opts, "observed": obs})
         if have_model:
             pts = [tuple(int(round(c * 1000)) for c in o["xyz"]) for o in obs]
@@ -232,8 +423,20 @@ def run(ctx: Ctx):
                 mp = obs[model[i][0]]["res"] if mb else None
                 if (mb, mp) != (o["bonded"], o["partner"]):
                     ctx.disagree("update_ss_bridges", {"pdb": text, "options": opts}, f"{o['res']}: bonded={mb} partner={mp}", f"{o['res']}: bonded={o['bonded']} partner={o['partner']}")
-        for sig, msg in check(obs):
-            sig = {**sig, "order": "reversed" if "reversed-order" in feats else "file", "chains": "same" if "same-chain" in feats else "different"}
+        if mixed:
+            # what the structure contains, re-derived from the input text
+            pts = input_sg(text)
+            near = [sum(1 for q in pts if q is not p and sum((a - b) ** 2 for a, b in zip(p, q)) < 2500 * 2500) for p in pts]
+            ctx.count("bridged+free-structures", f"{sum(1 for c in near if c == 1) // 2}-bridges+{sum(1 for c in near if c == 0)}-free")
+        problems = check(obs) + check_charges(obs, text, opts, r.pqr)
+        for k2, v2 in charge_stats.items():
+            ctx.count("SG-charge-oracle", k2, v2)
+        charge_stats.clear()
+        for sig, msg in problems:
+            if mixed:
+                sig = {**sig, "stream": "bridged+free", "chains": next(m for m in ("own-chains", "one-chain", "grouped-chains") if m in feats)}
+            else:
+                sig = {**sig, "order": "reversed" if "reversed-order" in feats else "file", "chains": "same" if "same-chain" in feats else "different"}
             k = tuple(sorted(sig.items()))
             if k in seen:
                 continue
@@ -247,7 +450,10 @@ def replay(ctx: Ctx, data: dict) -> bool:
     print("status:", r.status, r.exc)
     if r.status != "ok":
         return False
-    pr = check(observe(r.biomolecule, rp["pdb"]))
+    obs = observe(r.biomolecule, rp["pdb"])
+    pr = check(obs)
+    if any(o.startswith("--ff=") for o in rp["options"]):
+        pr += check_charges(obs, rp["pdb"], rp["options"], r.pqr)
     for p in pr:
         print(p)
     return bool(pr)
